@@ -2,6 +2,10 @@ package sim
 
 import (
 	"testing"
+	"time"
+
+	"github.com/andydunstall/piko/pkg/gossip"
+	"github.com/andydunstall/piko/server/cluster"
 
 	"verif/harness/vlib"
 )
@@ -302,6 +306,189 @@ func TestC02Relay(t *testing.T) {
 		}
 		if s.sawTrunc {
 			c.NonTrivial()
+		}
+	})
+}
+
+// TestC11Return: "... is forgotten after the expiry period and stays forgotten
+// unless it really returns". A node leaves (or crashes), every survivor forgets
+// it while the survivors keep gossiping among themselves, and then a new
+// incarnation with the same id and address and an empty state joins.
+func TestC11Return(t *testing.T) {
+	vlib.SetRule("C11", "TestC11Return", "directed lifecycle generator on 2-4 real nodes in virtual time: warm-up writes and full exchanges; one node leaves gracefully (notifying a drawn subset of its peers) or crashes; after a first silence of 2-45 s the survivors keep exchanging every 2 virtual seconds, evaluate liveness (before or after gossiping) and sweep until all of them have forgotten it; once one survivor knows of the leave, all survivors that still list the node see it as left within 4 rounds (a crash whose victim is re-introduced by finding F2 ends the case there); a new incarnation with the same id and an empty state writes, joins through a drawn survivor, and liveness evaluations, short silences, writes and exchanges are interleaved; oracle after every atomic action: I1-I6 incl. 'a peer learned recently and not heard from since is not unreachable' (nothing about the earlier incarnation may survive its expiry), and finally every survivor sees the returned node as live in gossip and as active in the routing table; non-trivial = the node returned")
+	p := &Profile{Prop: "C11", Oracles: map[string]bool{"C11": true}}
+	vlib.RunSync(t, "C11", func(c *vlib.Case) {
+		N := c.Int("nodes", 2, 4)
+		s := NewN(c, p, N)
+		all := func(f func(a, b *Node)) {
+			for _, a := range s.nodes {
+				for _, b := range s.nodes {
+					if a != b && !a.crashed && !b.crashed {
+						f(a, b)
+					}
+				}
+			}
+		}
+		write := func(n *Node) {
+			n.n.State.UpsertLocal(s.drawKey(), s.drawVal())
+			s.snapshotLocal(n)
+			s.afterAction()
+		}
+		for r, k := 0, c.Int("warmRounds", 1, 3); r < k; r++ {
+			for _, n := range s.nodes {
+				if c.Bool("warmWrite") {
+					write(n)
+				}
+			}
+			all(func(a, b *Node) { exchange(s, a, b) })
+			time.Sleep(time.Duration(c.Int("warmGapMs", 50, 1500)) * time.Millisecond)
+		}
+		x := s.nodes[c.Pick("victim", N)]
+		var survivors []*Node
+		for _, n := range s.nodes {
+			if n != x {
+				survivors = append(survivors, n)
+			}
+		}
+		manner := c.OneOf("manner", "leave", "leave", "crash")
+		c.Header["nodes"], c.Header["manner"], c.Header["victim"] = N, manner, x.id
+		if manner == "leave" {
+			c.Stepf("%s: leave", x.id)
+			x.n.State.LeaveLocal()
+			x.left = true
+			s.snapshotLocal(x)
+			s.afterAction()
+			for _, b := range survivors {
+				if c.Bool("notified") {
+					s.begin("leaveVia", b)
+					s.ctx.sender = x
+					c.Stepf("%s: leave notification to %s", x.id, b.id)
+					if err := x.n.LeaveVia(b.n); err != nil {
+						c.Fatalf("C11: leave stream %s->%s failed: %v", x.id, b.id, err)
+					}
+					s.afterAction()
+				}
+			}
+		}
+		c.Stepf("%s: gone (%s)", x.id, manner)
+		x.crashed = true
+		// the survivors carry on until all of them have forgotten x
+		forgotten := func() bool {
+			for _, o := range survivors {
+				if _, known := o.n.State.Node(x.id); known {
+					return false
+				}
+			}
+			return true
+		}
+		// (the first silence may be long enough for the un-notified survivors to suspect x
+		// before they next gossip with the ones that know it has left)
+		gap := c.Dur("firstGap", 2*time.Second, 10*time.Second, 45*time.Second)
+		livenessFirst := c.Bool("livenessFirst")
+		roundsSinceLeftKnown := -1
+		for round := 0; round < 120 && !forgotten(); round++ {
+			time.Sleep(gap)
+			gap = 2 * time.Second
+			evaluate := func() {
+				for _, o := range survivors {
+					s.doLiveness(o)
+					s.afterAction()
+					s.doSweep(o)
+					s.afterAction()
+				}
+			}
+			if livenessFirst {
+				evaluate()
+			}
+			all(func(a, b *Node) { exchange(s, a, b) })
+			if !livenessFirst {
+				evaluate()
+			}
+			// "seen as left by every node that learns of it": once a survivor knows that x
+			// left, the survivors it gossips with learn it too
+			if manner == "leave" {
+				someoneKnows := false
+				for _, o := range survivors {
+					for _, m := range o.n.State.Nodes() {
+						if m.ID == x.id && m.Left {
+							someoneKnows = true
+						}
+					}
+				}
+				if someoneKnows || roundsSinceLeftKnown >= 0 {
+					roundsSinceLeftKnown++
+				}
+				if roundsSinceLeftKnown >= 4 {
+					for _, o := range survivors {
+						for _, m := range o.n.State.Nodes() {
+							if m.ID == x.id && !m.Left {
+								c.Fatalf("C11: %s left and a survivor has known it for %d full rounds of gossip among the survivors, yet %s still lists it without seeing it as left (unreachable=%v)", x.id, roundsSinceLeftKnown, o.id, m.Unreachable)
+							}
+						}
+					}
+				}
+			}
+		}
+		if !forgotten() {
+			// finding F2 keeps re-introducing a crashed node from the survivors' digests
+			c.Class("never-forgotten-by-all(F2)")
+			return
+		}
+		c.NonTrivial()
+		nx := s.Restart(x)
+		for i, k := 0, c.Int("writesBeforeJoin", 0, 3); i < k; i++ {
+			write(nx)
+		}
+		s.doJoin(nx, survivors[c.Pick("joinVia", len(survivors))])
+		nodes := s.nodes
+		for i, k := 0, c.Int("steps", 3, 14); i < k; i++ {
+			switch c.Weighted("step", []string{"liveness", "exchange", "write", "pause"}, []int{5, 5, 2, 2}) {
+			case "liveness":
+				time.Sleep(time.Duration(c.Int("gapMs", 0, 300)) * time.Millisecond)
+				o := nodes[c.Pick("node", len(nodes))]
+				s.doLiveness(o)
+				s.afterAction()
+			case "exchange":
+				a := nodes[c.Pick("from", len(nodes))]
+				b := nodes[c.Pick("to", len(nodes))]
+				if a != b {
+					if _, known := a.n.State.Node(b.id); known {
+						exchange(s, a, b)
+					}
+				}
+			case "write":
+				write(nodes[c.Pick("writer", len(nodes))])
+			case "pause":
+				time.Sleep(time.Duration(c.Int("pauseMs", 300, 1500)) * time.Millisecond)
+			}
+		}
+		// settle: everyone talks to everyone, then nobody may doubt the returned node
+		for r := 0; r < 3; r++ {
+			all(func(a, b *Node) {
+				if _, known := a.n.State.Node(b.id); known {
+					exchange(s, a, b)
+				}
+			})
+		}
+		for _, o := range survivors {
+			s.doLiveness(o)
+			s.afterAction()
+			var meta *gossip.NodeMetadata
+			for _, m := range o.n.State.Nodes() {
+				if m.ID == nx.id {
+					mm := m
+					meta = &mm
+				}
+			}
+			if meta == nil {
+				c.Fatalf("C11: %s returned and exchanged state with everyone, but %s does not know it", nx.id, o.id)
+			}
+			if meta.Left || meta.Unreachable {
+				c.Fatalf("C11: %s returned as a new incarnation and was heard from just now, but %s treats it as left=%v unreachable=%v", nx.id, o.id, meta.Left, meta.Unreachable)
+			}
+			if rn, ok := o.cs.Node(nx.id); !ok || rn.Status != cluster.NodeStatusActive {
+				c.Fatalf("C11: %s returned, but the routing table of %s lists it as %+v (present=%v)", nx.id, o.id, rn, ok)
+			}
 		}
 	})
 }
